@@ -1024,6 +1024,18 @@ impl BlockIterator {
 	}
 
 	/// Returns the raw encoded key bytes.
+	/// byte offsets of the restart points (verification hook)
+	#[cfg(feature = "verif-hooks")]
+	pub(crate) fn verif_restart_offsets(&self) -> Vec<usize> {
+		self.restart_points.iter().map(|r| *r as usize).collect()
+	}
+
+	/// byte offset of the current entry (verification hook)
+	#[cfg(feature = "verif-hooks")]
+	pub(crate) fn verif_entry_offset(&self) -> usize {
+		self.current_entry_offset
+	}
+
 	#[inline]
 	pub(crate) fn key_bytes(&self) -> &[u8] {
 		&self.current_key
